@@ -158,7 +158,14 @@ class ShardedIterable(types.Recoverable, Iterable[_T]):
       raise ValueError(f'num_shards must be positive, got {self._shard_state=}')
 
   def shard(self, shard_index: int, num_shards: int) -> Self:
-    return dc.replace(self, _shard_state=ShardConfig(shard_index, num_shards))
+    # Sharding an already sharded iterable sub-divides that shard (as
+    # SequenceDataSource.shard does) instead of replacing it.
+    current = self._shard_state
+    shard_state = ShardConfig(
+        current.shard_index + shard_index * current.num_shards,
+        current.num_shards * num_shards,
+    )
+    return dc.replace(self, _shard_state=shard_state)
 
   @property
   def state(self) -> ShardConfig:
